@@ -371,8 +371,9 @@ pub fn c01(c: &Collector, g: &mut Guard) {
         cc.outcomes(&outcomes);
     });
     // ---------------------------------------------------------------- (i-c) long inputs
-    let longs = crate::props3::long_streams();
-    let longb = crate::props3::long_byte_streams();
+    let big = |n: &str| n.ends_with("300000") || n.ends_with("200000");
+    let longs: Vec<(String, String)> = crate::props3::long_streams().into_iter().filter(|(n, _)| thorough || !big(n)).collect();
+    let longb: Vec<(String, Vec<u8>)> = crate::props3::long_byte_streams().into_iter().filter(|(n, _)| thorough || !big(n)).collect();
     fork_map_c01(c, "long", 16, timeout, |part, cc| {
         let mut outcomes = HashSet::new();
         let mut n = 0u64;
